@@ -512,7 +512,8 @@ func checkFraming(p *Prog, r *Report) {
 		}
 		found = true
 		ok, why := true, ""
-		for _, s := range Paths(fn).Segs {
+		var badPath []string
+		for _, s := range PathsInl(fn).Segs { // the test may sit in a small range-building wrapper of the command
 			starts := false
 			for _, e := range s.Events {
 				if e.Kind == EvCall {
@@ -536,9 +537,10 @@ func checkFraming(p *Prog, r *Report) {
 			}
 			if !macKnown {
 				ok, why = false, "the ARP engine starts on a path where the source MAC may be nil (frames with an empty sender address)"
+				badPath = s.Describe(p)
 			}
 		}
-		r.Check(ok, "C17.R4", FuncName(fn)+"/arp-needs-mac", p.Pos(fn.Pos()), "the ARP scan starts only with a non-nil source MAC", why)
+		r.Check(ok, "C17.R4", FuncName(fn)+"/arp-needs-mac", p.Pos(fn.Pos()), "the ARP scan starts only with a non-nil source MAC", why, badPath...)
 	}
 	if !found {
 		r.Undecided("C17.R4", "arp command", "-", "the ARP command's RunE is found", "not found")
